@@ -74,13 +74,13 @@ prop(
         "become NOT_NEW and nothing else of any instance changes; NoData iff nothing matches; BadParameter iff the handle "
         "is unknown. The two generation ranks are a recorded open finding (KF-C20-1: computed from transitions inside the "
         "collection instead of the samples' own counts); they are proved correct under the negated trigger. " + _MEM_NOTE +
-        " This is why the quick tier stays at one stored sample with unwinding bound 2."),
-    bounds="quick: 0 stored samples / 2 instances (all masks, unwind 3), and 1 stored sample / 1 instance with unwind 2 (sample- and "
-           "view-state masks any non-empty subset, instance-state mask any singleton); thorough: 1 stored sample of one of 2 "
-           "instances with unwind 3 (all three masks any non-empty subset); max_samples 1..=4 or i32::MAX; generation counts "
-           "0..10^6; handles with 2 symbolic bytes, writer guids with 1 symbolic byte",
+        " This is why the check stays at one stored sample."),
+    bounds="0 or 1 stored sample (all 5 change kinds) over 2 instances, all three masks any non-empty subset, max_samples 1..=4 or "
+           "i32::MAX, specific handle none / known / unknown; generation counts 0..10^6; handles with 2 symbolic bytes, writer "
+           "guids with 1 symbolic byte; unwind 3 with the loops over the collection being built capped at 2 iterations (per-loop "
+           "bounds, unwinding assertions on); the thorough tier has no deeper bound (see outside)",
     outside="TWO OR MORE STORED SAMPLES: measured, one read of 2 stored samples over 2 instances with unwind 3 exhausts 13 GB in "
-            "the SAT conversion (1 sample: 3.5 million variables / 7 GB with unwind 3, 1.3 million / 2.3 GB with unwind 2), so "
+            "the SAT conversion (1 sample: 3.5 million variables / 7 GB with a uniform bound 3, about 1.5 million with the collection loops capped at 2), so "
             "the parts of the statement that need two samples -- the cut at max_samples inside a longer matching list, the order "
             "of the returned list, sample_rank > 0, generation_rank relative to a later sample of the collection, take keeping the "
             "order of the remaining samples -- are NOT decided by this check (the harness body is generic in the number of samples "
@@ -223,5 +223,4 @@ prop(
     ],
     timeout={"quick": 1500, "thorough": 3000},
     mem_gb=12,
-    unwind_patterns=_CAPS,
 )
